@@ -13,7 +13,7 @@ U == {"a1", "a2", "a3"}
 C == {"c1", "c2", "c3"}
 PartialFns(S, V) == UNION {[D -> V] : D \in SUBSET S}
 RouteTabs == IF Full THEN PartialFns(U, {2, 5}) ELSE PartialFns({"a1", "a2"}, {5})
-HostTabs == IF Full THEN PartialFns({"c1", "c2"}, {0, 3}) ELSE PartialFns({"c1"}, {3})
+HostTabs == IF Full THEN PartialFns({"c1", "c2"}, {0, 3}) ELSE PartialFns({"c1"}, {0, 3})    \* (an explicit 0 under a non-zero default matters)
 AttrSets == {<<>>, [capacity |-> 100], [capacity |-> 100, foo |-> "bar"], [foo |-> "bar"]}
 Args == {[defroute |-> dr, routes |-> r, defhost |-> dh, hosting |-> h, attrs |-> at] :
            dr \in {0, 1, 4}, r \in RouteTabs, dh \in {0, 7}, h \in HostTabs, at \in AttrSets}
